@@ -192,10 +192,11 @@ class PieceContract(Contract):
         o, a, kw, newobs = st
         if exc is not None:
             return
-        if O.has_esc(o.text):
+        esc = O.has_esc(o.text)
+        name = call.name
+        if esc and name not in PIECES:
             ctx.grey('esc-in-text')
             return
-        name = call.name
         varied = len({tuple(r) for r in o.texts}) >= 2
         det = {'source': o.describe(), 'method': name, 'args': [repr(x)[:60] for x in a]}
         if name in PIECES:
@@ -222,6 +223,8 @@ class PieceContract(Contract):
                     return
                 if 0 < k < len(o.text):
                     proper = True
+                if esc:
+                    continue        # base text with ESC: only the text of the pieces is judged
                 d = O.first_diff_equiv(o.texts[off:off + k], ro.texts)
                 if d is not None:
                     ctx.violation('piece-settings', dict(det, piece=ro.describe(), true_offset=off, at=d,
@@ -281,6 +284,9 @@ class PieceContract(Contract):
             new = a[1] if len(a) > 1 else kw.get('new')
             count = a[2] if len(a) > 2 else kw.get('count', -1)
             if not isinstance(old, str) or not isinstance(new, str) or not isinstance(count, int):
+                return
+            if newobs is None and '\x1b' in new:
+                ctx.grey('esc-in-replacement')      # parsed by design; C10 judges the text, C02 the parse
                 return
         t = o.text
         exp_rows = []
@@ -377,6 +383,7 @@ def direct_calls(ctx, mon, rng, L, v, pool):
         lambda: v.replace(sub(), rng.choice(['', 'x', 'yz', sub()])), lambda: v.replace(sub(), 'Q', rng.choice([0, 1, 2])),
         lambda: v.replace(sub(), rng.choice(others) if others else 'R'),
         lambda: v.replace(sub(), L.AnsiStr('uv', 'italic', 'bg_red')), lambda: v.replace(sub(), v),
+        lambda: (lambda o: v.replace(o, o))(sub()), lambda: (lambda o: v.replace(o, o.upper()))(sub()),
         lambda: v.replace('', rng.choice(['-', L.AnsiString('+', 'bold')]), rng.choice([-1, 1, 2])),
         lambda: v.expandtabs(rng.choice([0, 1, 3])),
     ]
@@ -400,7 +407,8 @@ def drive(ctx, mon, tier, only_case=None):
     sz = tier_sizes(tier)
 
     def body(rng, ex, case):
-        history(L, rng, ex, rng.randint(2, sz['nops']), sz['maxlen'], 'mixed' if rng.random() < 0.25 else 'wf', WEIGHTS)
+        history(L, rng, ex, rng.randint(2, sz['nops']), sz['maxlen'], 'mixed' if rng.random() < 0.25 else 'wf', WEIGHTS,
+                esc=rng.random() < 0.12)
         vals = ansi_values(L, ex)
         for v in vals[-4:]:
             if len(v.base_str) <= 80:
